@@ -6,7 +6,7 @@ from .. import common, tlc, programs, session, obs, perturb, render
 from ..framework import Check, pmap, MachineryError
 
 LEVEL = "model_checking"
-QUICK_CAP = {"C04": 5000, "C11": 5000, "C14": 5000, "C07": 6000, "C08": 9000, "C13": 4000, "C15": 1200}
+QUICK_CAP = {"C04": 5000, "C11": 5000, "C14": 5000, "C07": 6000, "C08": 6000, "C13": 4000, "C15": 1200}
 SIM_NUM = {"quick": 40, "thorough": 1500}
 CASE_TIMEOUT_S = 60
 
@@ -43,6 +43,16 @@ def generate(chk, prop, tier, seed):
             if any(e["t"] == "ren" for e in b["ed"]):
                 b["fam"] = "exh-ren-cmt"
                 behs.append(b)
+    if prop == "C08":
+        # third family: ALL statement streams up to a bound over an alphabet of structural items, judged by Nest (Streams.tla)
+        for cfg in (["Streams_quick.cfg"] if tier == "quick" else ["Streams_thorough.cfg", "Streams_do.cfg"]):
+            r = tlc.run("MCStreams.tla", cfg, timeout=20000)
+            if not r.ok():
+                raise MachineryError("TLC failed on %s: %s %s" % (cfg, r.invariant_violated, r.error))
+            chk.add_tlc(r)
+            chk.cov["tlc_runs"].append({"cfg": cfg, "generated": r.generated, "distinct": r.distinct, "behaviours": len(r.beh), "wall_s": r.wall_s})
+            for b in r.beh:
+                behs.append({"fam": "streams", "stream": b["st"], "valid": b["valid"], "out": [], "ed": [{"t": "stream", "pos": 0, "a": 0, "b": 0}], "edited": []})
     cfg = "Perturb_%s_sim.cfg" % low
     r = tlc.run("MCPerturb.tla", cfg, workers=8, simulate=dict(num=SIM_NUM[tier], depth=220), seed=seed + 7, timeout=6000)
     if not r.ok():
@@ -92,6 +102,10 @@ def build_case(prop, b):
             raise MachineryError("line arithmetic of Perturb.tla (%d) and of the renderer (%d) disagree" % (b["garbline"], line))
         meta = {"line": line, "quoted": lay["phys"][line - 1][1]}
         jobs = [dict(name="keep", src=src, std=std, ic=False), dict(name="ignore", src=src, std=std, ic=True)]
+    elif prop == "C08" and b.get("fam") == "streams":
+        body = "\n".join("  " + STREAM_TEXT[a] for a in b["stream"])
+        jobs = [dict(name="E", src="program u1\n" + body + "\nend program u1\n", std=std, ic=True)]
+        meta = {"valid": b["valid"]}
     elif prop == "C08":
         others = [e for e in ed if e["t"] in ("cmt", "cpp")]
         lay = perturb.layout(b["edited"], others)
@@ -162,7 +176,12 @@ def build_case(prop, b):
         # the absent case is only meaningful when the cut is at one nesting level and leaves valid source
         meta = {"incs": incs, "files": files, "main": msrc,
                 "nested": any(o != ab and o[0] <= ab[0] and ab[1] <= o[1] for o in incs for ab in incs)}
-    return {"id": b["id"], "jobs": jobs, "meta": meta, "fam": b["fam"], "out": out, "ed": ed, "beh_extra": {k: b[k] for k in ("leaves", "valid") if k in b}}
+    return {"id": b["id"], "jobs": jobs, "meta": meta, "fam": b["fam"], "out": out, "ed": ed, "beh_extra": {k: b[k] for k in ("leaves", "valid", "stream") if k in b}}
+
+
+STREAM_TEXT = {"s": "x = 1", "s10": "10 x = 1", "if": "if (x > 0) then", "ifn": "c1: if (x > 0) then", "else": "else", "endif": "end if", "endifn": "end if c1",
+               "do": "do i = 1, n", "enddo": "end do", "dol10": "do 10 i = 1, n", "dol20": "do 20 j = 1, n", "cont10": "10 continue", "cont20": "20 continue",
+               "enddo10": "10 end do", "blk": "block", "endblk": "end block", "sel": "select case (i)", "case": "case (1)", "endsel": "end select"}
 
 
 def fixed_lines_per_stmt(stmts):
